@@ -992,6 +992,50 @@ pub fn cross_decode<S: Sch>(n: &Node<S>) -> Vec<Viol> {
     v
 }
 
+/// Accessor coherence on one record: every way of reading the pairs and the node id agrees.
+pub fn accessor_coherence<K: EnrKey>(e: &Enr<K>, obs: &Obs) -> Vec<(&'static str, String, String)> {
+    let mut v: Vec<(&'static str, String, String)> = vec![];
+    let r = real::guard(|| {
+        let mut out: Vec<(&'static str, String, String)> = vec![];
+        let owned: Vec<(Vec<u8>, Vec<u8>)> = e.clone().into_iter().map(|(k, b)| (k, b.to_vec())).collect();
+        if owned != obs.pairs {
+            out.push(("C04", "into_iter() yields other pairs than iter()".into(), String::new()));
+        }
+        let mut sorted = obs.pairs.clone();
+        sorted.sort();
+        sorted.dedup_by(|a, b| a.0 == b.0);
+        if sorted != obs.pairs {
+            out.push(("C08", "iter() is not sorted by key / has duplicate keys".into(), String::new()));
+        }
+        for (k, raw) in &obs.pairs {
+            if e.get_raw_rlp(k) != Some(&raw[..]) {
+                out.push(("C14", "get_raw_rlp(key) differs from the pair yielded by iter()".into(), String::from_utf8_lossy(k).to_string()));
+            }
+            #[allow(deprecated)]
+            let got = e.get(k).map(|b| b.to_vec());
+            let want = rlp::header(raw, true).ok().map(|h| raw[h.hlen..].to_vec());
+            if got != want {
+                out.push(("C14", "deprecated get(key) is not the payload of the raw value".into(), String::from_utf8_lossy(k).to_string()));
+            }
+        }
+        if e.get_raw_rlp(b"\xffabsent-key").is_some() {
+            out.push(("C14", "get_raw_rlp reports a value for an absent key".into(), String::new()));
+        }
+        if enr::NodeId::from(e).raw() != obs.node_id || enr::NodeId::from(e.clone()).raw() != obs.node_id {
+            out.push(("C10", "NodeId::from(enr) differs from node_id()".into(), String::new()));
+        }
+        if e.signature() != &obs.sig[..] || e.seq() != obs.seq {
+            out.push(("C04", "accessors are not stable between two reads".into(), String::new()));
+        }
+        out
+    });
+    match r {
+        Ok(o) => v.extend(o),
+        Err(p) => v.push(("C03", "an accessor panics".into(), p)),
+    }
+    v
+}
+
 /// Checks that depend only on the canonical state, run once per new state.
 pub fn state_checks<S: Sch>(n: &Node<S>) -> Vec<Viol> {
     let mut v = vec![];
@@ -1014,6 +1058,9 @@ pub fn state_checks<S: Sch>(n: &Node<S>) -> Vec<Viol> {
         });
     };
     for (p, clause, detail) in invariant_state::<S>(&n.enr, &n.obs) {
+        push(p, clause, detail);
+    }
+    for (p, clause, detail) in accessor_coherence(&n.enr, &n.obs) {
         push(p, clause, detail);
     }
     for (l, p) in real::sweep(&n.enr, &PROBE_KEYS) {
